@@ -40,7 +40,7 @@ def shards(tier):
     th = tier == "thorough"
     sh = I.block_shards(tier, CFG_MAIN, contexts=S.CONTEXTS if th else S.CONTEXTS[:4])
     sh += I.block_shards(tier, CFG_OTHER, contexts=S.CONTEXTS[:6] if th else S.CONTEXTS[:2])
-    for f in S.SEP_LEAVES:
+    for f in S.SEP_LEAVES + S.DEF_LEAVES:
         sh.append(("sep", f))
     cfgs = _block_neighbourhood(2 if th else 1)
     for i in range(0, len(cfgs), 4):
